@@ -19,7 +19,8 @@ Record snap := mkSnap {
   s_payset : N;
   s_intra_ok : bool;                   (* Txids[..].Intra is the insertion position *)
   s_aview : list ((N * N) * (option aparams * option holding));   (* non-empty GetAssetParams / GetAssetHolding over U x A *)
-  s_creators : list (N * N)            (* (asset, creator) for every asset of A that GetCreator finds *)
+  s_creators : list (N * N);           (* (asset, creator) for every asset of A that GetCreator finds *)
+  s_txbytes : N                        (* eval.blockTxBytes: not computed by the model (encoded sizes), judged by the oracle only *)
 }.
 
 Fixpoint table_eqb (a b : table) : bool :=
@@ -92,7 +93,7 @@ Definition snap_of (U A : list N) (ev : evalst) : snap :=
   let c := ev_cow ev in
   mkSnap (map (fun a => (a, lookup c a)) U) (modified c) (l_txids (c_top c))
          (lease_sort (l_leases (c_top c))) (l_txncount (c_top c)) (l_fees (c_top c))
-         (N.of_nat (List.length (ev_payset ev))) true (aview_of U A c) (creators_of A c).
+         (N.of_nat (List.length (ev_payset ev))) true (aview_of U A c) (creators_of A c) 0.
 
 (* ------------------------------------------------------------------ decoding *)
 Definition opt_bind {A B} (o : option A) (f : A -> option B) : option B :=
@@ -231,11 +232,11 @@ Definition dec_aview := dec_bassets.
 
 Definition dec_snap (t : term) : option snap :=
   match t with
-  | TL [tb; mods; TL txids; leases; tc; fees; ps; av; crs] =>
+  | TL [tb; mods; TL txids; leases; tc; fees; ps; av; crs; tbytes] =>
     tb' <-? dec_table tb ;; mods' <-? as_N_list mods ;; tx' <-? dec_txids_from 0 txids ;;
     ls' <-? dec_leases leases ;; tc' <-? as_N tc ;; fees' <-? as_N fees ;; ps' <-? as_N ps ;;
-    av' <-? dec_aview av ;; crs' <-? dec_pairs crs ;;
-    Some (mkSnap tb' mods' (fst tx') ls' tc' fees' ps' (snd tx') av' crs')
+    av' <-? dec_aview av ;; crs' <-? dec_pairs crs ;; tbytes' <-? as_N tbytes ;;
+    Some (mkSnap tb' mods' (fst tx') ls' tc' fees' ps' (snd tx') av' crs' tbytes')
   | _ => None
   end.
 
@@ -369,8 +370,9 @@ Definition group_step_ok (sink : N) (before : snap) (g : gobs) : bool :=
     (s_txncount after =? s_txncount before + n) &&
     plist_eqb (s_txids after) (s_txids before ++ map (fun tx => (t_txid tx, t_lv tx)) (g_txns g)) &&
     (s_fees after =? (s_fees before + fees_of sink (g_txns g)) mod 2 ^ 64) &&
-    leases_ok (s_leases before) (s_leases after) (g_txns g)
-  else snap_eqb after before.
+    leases_ok (s_leases before) (s_leases after) (g_txns g) &&
+    (s_txbytes before <? s_txbytes after)
+  else snap_eqb after before && (s_txbytes after =? s_txbytes before).
 
 Fixpoint groups_ok (sink : N) (before : snap) (gs : list gobs) : bool :=
   match gs with
